@@ -1,4 +1,5 @@
 import Momo.Proof.PoolAllocMove
+import Momo.Proof.PoolAllocRoute
 /-!
 # C20 — Pool allocator is a transparent, leak-free std::allocator replacement
 
@@ -256,5 +257,351 @@ example : OneTypePerPool (fun _ => (24, 8)) [.anew (8, 4) 1, .alloc 0 (24, 8) 1 
   rcases hop with rfl | rfl | rfl | rfl <;> simp
 /-- F13 is a legal history: the flag is what goes up, one step before the error -/
 example : (run Sys.init (f13.take 5)).err = none ∧ (run Sys.init (f13.take 5)).rawSingle = true := by decide
+
+/-! ## a failing base allocator (`bad_alloc` inside `allocate` / the constructor)
+
+Model: `Momo/Model/PoolAllocFault.lean` (`FOp`, `frun`: allocator level; `FCOp`, `fcrun`: container level).  A fault is an
+explicit operation of the history, so every theorem below quantifies over every placement of faults. -/
+
+/-- **C20 failed_allocate_changes_nothing (allocator level).**  `allocate(n)` through a live pool `p` that ends with
+`bad_alloc`: no error is recorded; the live blocks, the ghost flag, every other pool, and of pool `p` the count, the
+owner count and the liveness are what they were; nothing was obtained from the base allocator (every ledger entry left
+was there before), control blocks, raw blocks and the entries of other pools are all still there.  The parameters of
+`p` change in exactly one case — a single object of another type requested from an idle pool: line 119 ran before the
+throw, the pool now has the parameters of that type (and the buffers of the replaced pool object went back).  In every
+other case the state is *identical*. -/
+theorem C20_failed_allocate_changes_nothing {s : Sys} (h0 : s.err = none) {p : Nat} {st : PoolSt}
+    (hl : livePool s p = some st) (cls : Cls) {n : Nat} (hn : n ≠ 0) :
+    let s' := fstep s (.allocFail p cls n)
+    s'.err = none ∧ s'.blocks = s.blocks ∧ s'.rawSingle = s.rawSingle ∧
+    (∀ j, j ≠ p → s'.pools[j]? = s.pools[j]?) ∧
+    s'.pools[p]? = some { st with params := if n = 1 ∧ cls ≠ st.params ∧ st.allocCount = 0 then cls else st.params } ∧
+    (∀ x ∈ s'.base, x ∈ s.base) ∧
+    (∀ x ∈ s.base, x.pid ≠ p ∨ x.kind ≠ .buf → x ∈ s'.base) ∧
+    (n ≠ 1 ∨ cls = st.params ∨ st.allocCount ≠ 0 → s' = s) := by
+  simp only
+  rw [fstep_eq_of_ok h0]
+  simp only
+  obtain ⟨hother, hp⟩ := doAllocFail_pools hl cls hn
+  refine ⟨?_, doAllocFail_blocks _ _ _ _, doAllocFail_rawSingle _ _ _ _, hother, hp, doAllocFail_base_sub _ _ _ _,
+    fun x hx h => doAllocFail_base_keep _ _ _ _ x hx h, fun h => doAllocFail_same hl cls hn h⟩
+  rw [doAllocFail_eq hl cls hn]
+  split <;> exact h0
+
+/-- **C20 dealloc_provenance, every history with faults.**  With one single-object type per shared pool — only the
+*successful* single-object requests are restricted, a request that throws may be for any type — no history, wherever
+the base allocator throws, records a provenance error, and the invariant holds (`GetAllocateCount()` = live pool
+blocks, every ledger entry accounted for, …). -/
+theorem C20_fault_dealloc_provenance (κ : Nat → Cls) (ops : List FOp) (h : FOneTypePerPool κ ops) :
+    ((frun Sys.init ops).err = none ∧ Inv (frun Sys.init ops)) ∨ (frun Sys.init ops).err = some .illegal :=
+  frun_err inv_init rfl ops (frun_oneType (K_init κ) rfl ops h).2
+
+/-- the weakest form of the hypothesis (ghost flag), histories with faults -/
+theorem C20_fault_dealloc_provenance_no_raw_single (ops : List FOp) (h : (frun Sys.init ops).rawSingle = false) :
+    ((frun Sys.init ops).err = none ∧ Inv (frun Sys.init ops)) ∨ (frun Sys.init ops).err = some .illegal :=
+  frun_err inv_init rfl ops h
+
+/-- histories without faults are the histories of the fault-free machine (so the theorems above contain the ones of
+the first section) -/
+theorem C20_fault_free_histories (ops : List Op) : frun Sys.init (ops.map .ok) = run Sys.init ops := frun_ok _ _
+
+/-- **C20 failed_allocate_changes_nothing (container level): no block is lost.**  In every state reached by a container
+history with faults, an `allocate` of container `e` that throws: no error; the containers and allocator objects, who
+holds which block, and the live blocks are what they were; only the pool of `e`'s allocator can have changed (and of
+it only the parameters, see the allocator-level theorem); ledger entries of other pools are untouched. -/
+theorem C20_fault_container_alloc_fail (ops : List FCOp) (hok0 : (fcrun CSys.init ops).sys.err = none)
+    {en : Ent} (hen : en ∈ (fcrun CSys.init ops).ents) (cls : Cls) {n : Nat} (hn : n ≠ 0) :
+    let cs := fcrun CSys.init ops
+    let cs' := factStep en.eid en.pid cs (.allocFail cls n)
+    cs'.sys.err = none ∧ cs'.ents = cs.ents ∧ cs'.own = cs.own ∧ cs'.sys.blocks = cs.sys.blocks ∧
+    (∀ e, cs'.ownedBy e = cs.ownedBy e) ∧ Frame en.eid en.pid cs cs' ∧ CInv cs' := by
+  have hc := fcrun_cinv cinv_init ops hok0
+  obtain ⟨st, hl, _⟩ := ent_pool_live hc hen
+  have hs := C20_failed_allocate_changes_nothing hok0 hl cls hn
+  simp only at hs ⊢
+  have hok : (factStep en.eid en.pid (fcrun CSys.init ops) (.allocFail cls n)).sys.err = none := hs.1
+  refine ⟨hok, rfl, rfl, hs.2.1, ?_, factStep_frame hc _ _ _ hok0 hok, factStep_cinv hc hen rfl rfl _ hok0 hok⟩
+  intro e
+  simp only [CSys.ownedBy, factStep, hs.2.1]
+
+/-- **container histories with faults**: unless a single object was served raw, no provenance error, and the
+container-level invariant holds at the end -/
+theorem C20_fault_dealloc_provenance_containers (ops : List FCOp) (h : (fcrun CSys.init ops).sys.rawSingle = false) :
+    ((fcrun CSys.init ops).sys.err = none ∧ CInv (fcrun CSys.init ops)) ∨
+    (fcrun CSys.init ops).sys.err = some .illegal :=
+  fcrun_err ops h
+
+/-- **C20 move_swap_carry_pool (invariant form), histories with faults.**  After every container history — copies, moves,
+swaps, splices, assignments, calls that threw `bad_alloc` half way, copy constructions that threw — every live block is
+held by a live container whose allocator points to the pool the block was allocated from, names are unique, and the
+owner count of every pool equals the number of containers / allocator objects attached to it. -/
+theorem C20_fault_blocks_follow_their_pool (ops : List FCOp) (hok : (fcrun CSys.init ops).sys.err = none) :
+    (∀ b ∈ (fcrun CSys.init ops).sys.blocks,
+        ∃ e ∈ (fcrun CSys.init ops).ents, e.eid = (fcrun CSys.init ops).own b.id ∧ e.pid = b.pid) ∧
+    ((fcrun CSys.init ops).ents.map (·.eid)).Nodup ∧
+    (∀ (p : Nat) (st : PoolSt), (fcrun CSys.init ops).sys.pools[p]? = some st →
+        st.refs = (fcrun CSys.init ops).ents.countP (fun e => e.pid == p)) :=
+  let hc := fcrun_cinv cinv_init ops hok
+  ⟨hc.owned, hc.nodupE, hc.refs⟩
+
+/-- **C20 last_owner_returns_all, histories with faults (leak freedom).**  After every container history with faults: a pool
+to which no live container or allocator object is attached any more is dead and the ledger of the base allocator holds
+nothing that was requested for it — no control block, no buffer, no raw block; no live block came from it. -/
+theorem C20_fault_last_owner_returns_all (ops : List FCOp) (hok : (fcrun CSys.init ops).sys.err = none) (p : Nat)
+    (hlast : ∀ e ∈ (fcrun CSys.init ops).ents, e.pid ≠ p) :
+    (∀ x ∈ (fcrun CSys.init ops).sys.base, x.pid ≠ p) ∧
+    (∀ st, (fcrun CSys.init ops).sys.pools[p]? = some st → st.dead = true ∧ st.refs = 0) ∧
+    (∀ b ∈ (fcrun CSys.init ops).sys.blocks, b.pid ≠ p) := by
+  have hc := fcrun_cinv cinv_init ops hok
+  refine ⟨no_entity_no_base hc p hlast, fun st hst => no_entity_pool_dead hc p hlast hst, ?_⟩
+  intro b hb hbp
+  obtain ⟨e, he, _, hep⟩ := hc.owned b hb
+  exact hlast e he (hep.trans hbp)
+
+/-- corollary: when every container and allocator object has been destroyed the ledger is empty, whatever threw on the way -/
+theorem C20_fault_all_destroyed_ledger_empty (ops : List FCOp) (hok : (fcrun CSys.init ops).sys.err = none)
+    (hnone : (fcrun CSys.init ops).ents = []) :
+    (fcrun CSys.init ops).sys.base = [] ∧ (fcrun CSys.init ops).sys.blocks = [] := by
+  have h := fun p => C20_fault_last_owner_returns_all ops hok p (by rw [hnone]; intro e he; cases he)
+  constructor
+  · cases hb : (fcrun CSys.init ops).sys.base with
+    | nil => rfl
+    | cons x t => exact absurd rfl ((h x.pid).1 x (by rw [hb]; exact List.mem_cons_self))
+  · cases hb : (fcrun CSys.init ops).sys.blocks with
+    | nil => rfl
+    | cons x t => exact absurd rfl ((h x.pid).2.2 x (by rw [hb]; exact List.mem_cons_self))
+
+/-- after any history with faults, freeing a block it holds (e.g. while unwinding from the exception) and the final
+destructor call of a container that holds nothing succeed -/
+theorem C20_fault_cleanup_succeeds (ops : List FCOp) (hok : (fcrun CSys.init ops).sys.err = none)
+    {en : Ent} (hen : en ∈ (fcrun CSys.init ops).ents) :
+    ((fcrun CSys.init ops).sys.rawSingle = false → ∀ b ∈ (fcrun CSys.init ops).sys.blocks,
+        (fcrun CSys.init ops).own b.id = en.eid → ∀ frees,
+        (actStep en.eid en.pid (fcrun CSys.init ops) (.free b.id frees)).sys.err = none) ∧
+    (ownsNone (fcrun CSys.init ops) en.eid = true → (step (fcrun CSys.init ops).sys (.adrop en.pid)).err = none) :=
+  let hc := fcrun_cinv cinv_init ops hok
+  ⟨fun hrs _ hb ho frees => owner_free_succeeds hc hok hrs hen hb ho frees, fun hnone => drop_succeeds hc hok hen hnone⟩
+
+/-- a container touches only its own pool and its own blocks also in calls in which allocations throw -/
+theorem C20_fault_container_touches_only_own_pool (ops : List FCOp) (hok0 : (fcrun CSys.init ops).sys.err = none)
+    (e : Nat) (acts : List FAct) (hok : (fcstep (fcrun CSys.init ops) (.mutateF e acts)).sys.err = none) :
+    ∃ en ∈ (fcrun CSys.init ops).ents, en.eid = e ∧
+      Frame e en.pid (fcrun CSys.init ops) (fcstep (fcrun CSys.init ops) (.mutateF e acts)) ∧
+      (fcstep (fcrun CSys.init ops) (.mutateF e acts)).ents = (fcrun CSys.init ops).ents := by
+  have hc := fcrun_cinv cinv_init ops hok0
+  rw [fcstep_eq_of_ok hok0] at hok ⊢
+  simp only at hok ⊢
+  cases hs : findEnt (fcrun CSys.init ops) e with
+  | none => simp only [hs] at hok; rw [cfail_err _ hok0] at hok; cases hok
+  | some en =>
+    simp only [hs] at hok ⊢
+    exact ⟨en, (findEnt_some hs).1, (findEnt_some hs).2,
+      facts_frame hc (findEnt_some hs).1 (findEnt_some hs).2 rfl acts hok0 hok, facts_ents _ _ _ _⟩
+
+/-- `Container d(c)` that throws inside `select_on_container_copy_construction` (the control block of the new allocator
+object cannot be allocated; catchable since the function is no longer `noexcept`): after any history, nothing at all
+changes — no pool, no container, no ledger entry. -/
+theorem C20_fault_copy_construct_control_block_fail (ops : List FCOp) (hok0 : (fcrun CSys.init ops).sys.err = none)
+    (d c : Nat) (cls : Cls) (hok : (fcstep (fcrun CSys.init ops) (.copyConstructNewFail d c cls)).sys.err = none) :
+    fcstep (fcrun CSys.init ops) (.copyConstructNewFail d c cls) = fcrun CSys.init ops := by
+  rw [fcstep_eq_of_ok hok0] at hok ⊢
+  simp only at hok ⊢
+  cases hs : findEnt (fcrun CSys.init ops) c with
+  | none => simp only [hs] at hok; rw [cfail_err _ hok0] at hok; cases hok
+  | some ce =>
+    simp only [hs] at hok ⊢
+    by_cases hf : (findEnt (fcrun CSys.init ops) d).isSome = true
+    · rw [if_pos hf] at hok; rw [cfail_err _ hok0] at hok; cases hok
+    · rw [if_neg hf]
+
+/-! ## the decision logic of `allocate` / `deallocate` for value types of every size and alignment -/
+
+/-- **C20 allocate_route.**  For a value type of any size and alignment (`paramsOf N M size align` is
+`pvGetMemPoolParams()`, `M = UIntConst::maxAlignment`, `N` blocks per buffer): a legal `allocate(n)` succeeds; the block
+comes from the pool iff `n = 1` and (the pool has the parameters of the type, or `GetAllocateCount() == 0`), otherwise
+from the memory manager; on the pool path the pool afterwards has the parameters of the type. -/
+theorem C20_allocate_route {s : Sys} {p : Nat} {st : PoolSt} (h0 : s.err = none) (hl : livePool s p = some st)
+    (N M size align : Nat) {n : Nat} (hn : n ≠ 0) {id : Nat} (hfresh : ∀ b ∈ s.blocks, b.id ≠ id) (ms : List Nat) :
+    let cls := paramsOf N M size align
+    let s' := step s (.alloc p cls n id ms)
+    s'.err = none ∧
+    s'.blocks = ⟨id, p, cls, n, if n = 1 ∧ (cls = st.params ∨ st.allocCount = 0) then .pool cls else .raw⟩ :: s.blocks ∧
+    (n = 1 ∧ (cls = st.params ∨ st.allocCount = 0) →
+      s'.pools[p]? = some { st with params := cls, allocCount := st.allocCount + 1 }) ∧
+    (¬ (n = 1 ∧ (cls = st.params ∨ st.allocCount = 0)) → s'.pools = s.pools) :=
+  alloc_route h0 hl _ hn hfresh ms
+
+/-- **C20 deallocate_route.**  In a state satisfying the invariant, a legal `deallocate(ptr, n)` (block live, allocated
+through an allocator on the same pool, same value type, same count): the block is handed to `MemPool::Deallocate` iff
+`n = 1` and the parameters of the value type equal the pool's *current* parameters, and to the memory manager otherwise.
+The call is an error exactly when that is not where the block came from (`rawIntoPool` = F13 / `poolIntoRaw`); otherwise
+the count drops by one resp. the raw ledger entry disappears, and nothing else changes. -/
+theorem C20_deallocate_route {s : Sys} (hi : Inv s) {p : Nat} {st : PoolSt} (h0 : s.err = none) (hl : livePool s p = some st)
+    {b : Block} (hb : b ∈ s.blocks) (hp : b.pid = p) (frees : List Nat) :
+    (b.n = 1 ∧ b.cls = st.params →
+      (b.prov = .raw → (step s (.dealloc p b.cls b.n b.id frees)).err = some (.rawIntoPool b.id)) ∧
+      (b.prov ≠ .raw →
+        (step s (.dealloc p b.cls b.n b.id frees)).err = none ∧
+        (step s (.dealloc p b.cls b.n b.id frees)).pools[p]? = some { st with allocCount := st.allocCount - 1 } ∧
+        (step s (.dealloc p b.cls b.n b.id frees)).blocks = s.blocks.filter (fun x => x.id != b.id) ∧
+        (∀ x ∈ s.base, x.kind ≠ .buf → x ∈ (step s (.dealloc p b.cls b.n b.id frees)).base))) ∧
+    (¬ (b.n = 1 ∧ b.cls = st.params) →
+      (b.prov ≠ .raw → (step s (.dealloc p b.cls b.n b.id frees)).err = some (.poolIntoRaw b.id)) ∧
+      (b.prov = .raw →
+        (step s (.dealloc p b.cls b.n b.id frees)).err = none ∧
+        (step s (.dealloc p b.cls b.n b.id frees)).pools = s.pools ∧
+        (step s (.dealloc p b.cls b.n b.id frees)).blocks = s.blocks.filter (fun x => x.id != b.id) ∧
+        (step s (.dealloc p b.cls b.n b.id frees)).base =
+          s.base.filter (fun e => !(e.pid == p && e.kind == .raw && e.id == b.id)))) :=
+  dealloc_route hi h0 hl hb hp frees
+
+/-- **C20 pool_params_closed_form.**  `pvGetMemPoolParams()` of every C++ value type (size a positive multiple of the
+alignment, alignments powers of two — `CppType`): block alignment `min(alignof(T), maxAlignment)`; block size
+`sizeof(T)`, except that with more than one block per buffer a type whose size equals that alignment gets twice it. -/
+theorem C20_pool_params_closed_form {N M s a : Nat} (hM : 0 < M) (h : CppType M s a) :
+    paramsOf N M s a = (if N ≠ 1 ∧ s = min a M then Extracted.poolCorrectSmallMul * s else s, min a M) :=
+  paramsOf_cpp hM h
+
+/-- **C20 same_pool_parameters_iff (`pvIsEqual` between two value types).**  `N > 1`: two value types are interchangeable for
+the pool (a single object of the one is served by / returned to a pool parameterised for the other) iff their clamped
+alignments agree and their sizes are equal or one is the alignment and the other twice it.  `N = 1`: iff clamped
+alignments and sizes agree. -/
+theorem C20_same_pool_parameters_iff {N M s1 a1 s2 a2 : Nat} (hM : 0 < M) (h1 : CppType M s1 a1) (h2 : CppType M s2 a2) :
+    (N ≠ 1 → (paramsOf N M s1 a1 = paramsOf N M s2 a2 ↔
+      min a1 M = min a2 M ∧ (s1 = s2 ∨ (s1 = min a1 M ∧ s2 = 2 * s1) ∨ (s2 = min a2 M ∧ s1 = 2 * s2)))) ∧
+    (paramsOf 1 M s1 a1 = paramsOf 1 M s2 a2 ↔ min a1 M = min a2 M ∧ s1 = s2) :=
+  ⟨fun hN => same_class_iff hM hN h1 h2, same_class_iff_one hM h1 h2⟩
+
+/-- **C20 overaligned_value_types.**  `alignof(T) > maxAlignment`: the pool is parameterised with
+`(sizeof(T), maxAlignment)`.  The model covers such types like all others (every theorem of this file holds for them);
+what it says about them is that the alignment the allocator works with is `maxAlignment`, strictly smaller than the
+type's — the pool's blocks (and the raw path, whose memory manager is given no alignment) are only
+`maxAlignment`-aligned (reported finding: `std::list<T, unsynchronized_pool_allocator<T>>` with `alignas(32) T`). -/
+theorem C20_overaligned_value_types {N M s a : Nat} (hM : 0 < M) (h : CppType M s a) (ho : M < a) :
+    paramsOf N M s a = (s, M) ∧ (paramsOf N M s a).2 < a := by
+  rw [paramsOf_overaligned hM h ho]; exact ⟨rfl, ho⟩
+
+/-- **C20 reparameterisation_params_valid.**  The pool object line 119 creates passes every `MOMO_CHECK` of
+`MemPool::pvCheckParams` for value types of every size and alignment, for every legal `MemPoolParams<N, …>` and every
+`maxAlignment ≤ 1024` (only `std::length_error` for `blockSize > maxSize / N` remains, not modelled). -/
+theorem C20_reparameterisation_params_valid {N M : Nat} (hN : 0 < N) (hN2 : N < Extracted.poolBlockCountLimit) (hM : 0 < M)
+    (hM2 : M ≤ Extracted.poolMaxBlockAlignment) (size : Nat) {align : Nat} (ha : 0 < align) :
+    checkParams N (paramsOf N M size align) :=
+  paramsOf_checks hN hN2 hM hM2 size ha
+
+/-! ## the propagation traits of the class and what the standard prescribes under exactly these -/
+
+/-- **C20 traits_as_extracted.**  T1 reads the four typedefs from pool_allocator.h on every run: POCCA = `false_type`,
+POCMA = `true_type`, POCS = `true_type`, `is_always_equal` not declared and the class not empty, hence `false_type`; the
+extractor also checks that there is no second declaration.  The container-level machine `cstep` branches on `pocca`,
+`pocma`, `pocs`; with these values the branches "unmodelled trait combination" are dead code: no other combination can
+occur as long as this theorem builds. -/
+theorem C20_traits_as_extracted : pocca = false ∧ pocma = true ∧ pocs = true ∧ alwaysEqual = false :=
+  traits_as_extracted
+
+/-- **C20 copy assignment, POCCA = false.**  `d = c` after any history: no container or allocator object changes its
+pool (`d` keeps its own, `c` too), and whatever `d` frees, reuses and allocates touches only the pool `d`'s allocator
+pointed to before and only `d`'s blocks; ledger entries of every other pool — `c`'s included, unless they share — are
+untouched. -/
+theorem C20_copy_assign_keeps_pools (ops : List COp) (hok0 : (crun CSys.init ops).sys.err = none) (d c : Nat) (acts : List Act)
+    (hok : (cstep (crun CSys.init ops) (.copyAssign d c acts)).sys.err = none) :
+    ∃ de ∈ (crun CSys.init ops).ents, de.eid = d ∧ (∃ ce ∈ (crun CSys.init ops).ents, ce.eid = c) ∧
+      (cstep (crun CSys.init ops) (.copyAssign d c acts)).ents = (crun CSys.init ops).ents ∧
+      Frame d de.pid (crun CSys.init ops) (cstep (crun CSys.init ops) (.copyAssign d c acts)) :=
+  copyAssign_spec (crun_cinv cinv_init ops hok0) hok0 d c acts hok
+
+/-- **C20 swap, POCS = true.**  After any history, `d.swap(c)` of any two live containers is defined — whether or not their
+allocators are equal (with `is_always_equal = false` and POCS = false, unequal allocators would be undefined behaviour;
+what the swap does is `C20_swap_carries_pool`). -/
+theorem C20_swap_defined_for_unequal_allocators (ops : List COp) (hok0 : (crun CSys.init ops).sys.err = none)
+    {de ce : Ent} (hde : de ∈ (crun CSys.init ops).ents) (hce : ce ∈ (crun CSys.init ops).ents) :
+    (cstep (crun CSys.init ops) (.swap de.eid ce.eid)).sys.err = none :=
+  swap_any_pools_ok (crun_cinv cinv_init ops hok0) hok0 hde hce
+
+/-- **C20 move assignment, POCMA = true.**  After any history, `d = std::move(c)` of any two different live containers —
+equal allocators or not — needs no allocation: once `d` has freed what it held, handing over `c`'s allocator succeeds (the
+old pool dies if `d` was its last owner; what the assignment does is `C20_move_assign_carries_pool`). -/
+theorem C20_move_assign_defined_for_unequal_allocators (ops : List COp) (hok0 : (crun CSys.init ops).sys.err = none)
+    {de ce : Ent} (hde : de ∈ (crun CSys.init ops).ents) (hce : ce ∈ (crun CSys.init ops).ents) (hne : de.eid ≠ ce.eid)
+    (hnone : ownsNone (crun CSys.init ops) de.eid = true) :
+    (cstep (crun CSys.init ops) (.moveAssign de.eid ce.eid [])).sys.err = none :=
+  moveAssign_any_pools_ok (crun_cinv cinv_init ops hok0) hok0 hde hce hne hnone
+
+/-! ## allocator objects shared by containers of the same node type (the positive side of F13) -/
+
+/-- **C20 same_node_type_sharing.**  Container histories — with faults — in which every successful single-object request
+is for value types with one and the same pool parameters `κ0` (several `std::list<int>`, say, constructed from one
+allocator object, from each other's `get_allocator()`, copied, moved, swapped, spliced, assigned in any order; arrays
+of any type are unrestricted): no `allocate(1)` is ever served from the memory manager, no provenance error is ever
+recorded, and the container-level invariant holds.  (F13 needs two node types on one pool.) -/
+theorem C20_same_node_type_sharing (κ0 : Cls) (ops : List FCOp) (h : ∀ op ∈ ops, ∀ c ∈ op.singleCls, c = κ0) :
+    (fcrun CSys.init ops).sys.rawSingle = false ∧
+    (((fcrun CSys.init ops).sys.err = none ∧ CInv (fcrun CSys.init ops)) ∨
+      (fcrun CSys.init ops).sys.err = some .illegal) :=
+  ⟨fcrun_oneNodeType κ0 ops h, fcrun_err ops (fcrun_oneNodeType κ0 ops h)⟩
+
+/-- the same for histories without faults (`crun`) -/
+theorem C20_same_node_type_sharing_no_faults (κ0 : Cls) (ops : List COp) (h : ∀ op ∈ ops, ∀ c ∈ op.singleCls, c = κ0) :
+    (crun CSys.init ops).sys.rawSingle = false ∧
+    (((crun CSys.init ops).sys.err = none ∧ CInv (crun CSys.init ops)) ∨
+      (crun CSys.init ops).sys.err = some .illegal) := by
+  have := C20_same_node_type_sharing κ0 (ops.map .ok) (by
+    intro op hop c hc
+    obtain ⟨o, ho, rfl⟩ := List.mem_map.mp hop
+    exact h o ho c hc)
+  rw [fcrun_ok] at this
+  exact this
+
+/-- **C20 shared_pool_splice_migrates.**  In every state such a history reaches: `d.splice(…, c, …)` / `merge` / node
+hand-over between two containers that share a pool (equal allocators) is legal; the allocator-level state is unchanged;
+the nodes named, held by `c`, are now held by `d`; every other block keeps its holder; and `d` can free each migrated
+node through its own allocator — it goes back into the pool it came from. -/
+theorem C20_shared_pool_splice_migrates (κ0 : Cls) (ops : List FCOp) (h : ∀ op ∈ ops, ∀ c ∈ op.singleCls, c = κ0)
+    (hok : (fcrun CSys.init ops).sys.err = none) {de ce : Ent} (hde : de ∈ (fcrun CSys.init ops).ents)
+    (hce : ce ∈ (fcrun CSys.init ops).ents) (hp : de.pid = ce.pid) (ids : List Nat) :
+    let cs := fcrun CSys.init ops
+    let cs' := cstep cs (.splice de.eid ce.eid ids)
+    cs'.sys = cs.sys ∧ cs'.ents = cs.ents ∧
+    (∀ b ∈ cs.sys.blocks, b.id ∈ ids → cs.own b.id = ce.eid →
+      cs'.own b.id = de.eid ∧ ∀ frees, (actStep de.eid de.pid cs' (.free b.id frees)).sys.err = none) ∧
+    (∀ i, ¬ (i ∈ ids ∧ cs.own i = ce.eid) → cs'.own i = cs.own i) :=
+  splice_spec (fcrun_cinv cinv_init ops hok) hok (fcrun_oneNodeType κ0 ops h) hde hce hp ids
+
+/-! ## non-vacuity of the new sections -/
+
+/-- list-like scenario with faults: allocator object 0, lists 1 and 2 sharing its pool, a `push_back` that throws on the
+idle pool (re-parameterised, nothing else), inserts, an insert that throws while the pool is busy (nothing changes), a
+splice from 1 to 2, a copy construction that throws after two nodes (pool 1 is born and dies), one that throws inside
+select_on_container_copy_construction, destruction of everything -/
+def demoFault : List FCOp :=
+  [.ok (.newAlloc 0 (8, 4) 900), .ok (.newFrom 1 0), .ok (.newFrom 2 0),
+   .mutateF 1 [.allocFail (24, 8) 1],
+   .mutateF 1 [.ok (.alloc (24, 8) 1 10 [500]), .ok (.alloc (24, 8) 1 11 [])],
+   .mutateF 2 [.ok (.alloc (24, 8) 1 12 []), .allocFail (24, 8) 1],
+   .ok (.splice 2 1 [10]),
+   .copyConstructF 3 2 (24, 8) 901 [.ok (.alloc (24, 8) 1 20 [600]), .ok (.alloc (24, 8) 1 21 []), .allocFail (24, 8) 1,
+      .ok (.free 21 []), .ok (.free 20 [600])],
+   .newAllocFail 4 (24, 8), .copyConstructNewFail 4 2 (24, 8),
+   .ok (.destroy 2 [.free 10 [], .free 12 []]), .ok (.destroy 1 [.free 11 [500]]), .ok (.destroy 0 [])]
+
+example : (fcrun CSys.init demoFault).sys.err = none := by decide
+example : (fcrun CSys.init demoFault).ents = [] ∧ (fcrun CSys.init demoFault).sys.base = [] := by decide
+example : ∀ op ∈ demoFault, ∀ c ∈ op.singleCls, c = (24, 8) := by decide
+/-- after the failed `push_back` on the idle pool: parameters of the list node, count 0, three owners, only the control block -/
+example : (fcrun CSys.init (demoFault.take 4)).sys = ⟨[⟨(24, 8), 0, 3, false⟩], [], [⟨900, 0, .cb⟩], false, none⟩ := by decide
+/-- the failed copy construction leaves pool 1 dead and everything of pool 0 as it was -/
+example : ((fcrun CSys.init (demoFault.take 8)).sys.pools.map (·.dead)) = [false, true] ∧
+    (fcrun CSys.init (demoFault.take 8)).sys.base = (fcrun CSys.init (demoFault.take 7)).sys.base ∧
+    (fcrun CSys.init (demoFault.take 8)).sys.blocks = (fcrun CSys.init (demoFault.take 7)).sys.blocks := by decide
+/-- the F13 history with failing requests in front: same error, the faults change nothing -/
+example : (frun Sys.init f13f).err = (run Sys.init f13).err := by decide
+example : FOneTypePerPool (fun _ => (24, 8)) [.ok (.anew (8, 4) 1), .allocFail 0 (40, 8) 1, .ok (.alloc 0 (24, 8) 1 5 [9]),
+    .allocFail 0 (40, 8) 1, .allocFail 0 (24, 8) 1, .ok (.dealloc 0 (24, 8) 1 5 [9])] := by
+  intro op hop
+  simp only [List.mem_cons, List.not_mem_nil, or_false] at hop
+  rcases hop with rfl | rfl | rfl | rfl | rfl | rfl <;> simp
+/-- value types: `int`-sized (4/4) and 8/4 share pool parameters for `N > 1`; an over-aligned 64/32 type is (64, 16) -/
+example : paramsOf 32 16 4 4 = paramsOf 32 16 8 4 ∧ paramsOf 32 16 64 32 = (64, 16) ∧ paramsOf 1 16 4 4 ≠ paramsOf 1 16 8 4 := by decide
+example : CppType 16 64 32 := ⟨by decide, ⟨2, rfl⟩, by decide, Or.inr ⟨2, rfl⟩⟩
 
 end Momo.PoolAlloc
